@@ -78,7 +78,28 @@ def known_match(kf, pid, ob):
 # ---------------------------------------------------------------------------------------------
 FN_RE = re.compile(r'^\s*(?:#\[[^\]]*\]\s*)*(?:pub(?:\([^)]*\))?\s+)?(?:(?:const|open|closed|broadcast|proof|spec|exec|uninterp|unsafe|extern\s+"C")\s+)*fn\s+([A-Za-z_][A-Za-z0-9_]*)')
 
-def enclosing_fn(lines, lno):
+_FN_SPANS = {}
+def fn_spans(text):
+    """[(start_line, end_line, name)] of every fn with a body in the generated file (brace matching on the masked text)"""
+    key = id(text)
+    if key in _FN_SPANS: return _FN_SPANS[key]
+    mask = vextract.rust_mask(text)
+    spans = []
+    for m in re.finditer(r'\bfn\s+([A-Za-z_][A-Za-z0-9_]*)', mask):
+        ob = vextract.find_at_depth0(mask, m.end(), '{;')
+        if ob < 0 or mask[ob] != '{': continue
+        try: cb = vextract.match_brace(mask, ob)
+        except Exception: continue
+        spans.append((text.count('\n', 0, m.start()) + 1, text.count('\n', 0, cb) + 1, m.group(1)))
+    _FN_SPANS[key] = spans
+    return spans
+
+def enclosing_fn(lines, lno, text=None):
+    if text is not None:
+        best = None
+        for a, b, name in fn_spans(text):
+            if a <= lno <= b and (best is None or (b - a) < (best[1] - best[0])): best = (a, b, name)
+        if best: return best[2]
     for k in range(min(lno, len(lines)) - 1, -1, -1):
         m = FN_RE.match(lines[k])
         if m: return m.group(1)
@@ -141,7 +162,7 @@ def classify_diag(d, unit, lines):
     po = org(prim)
     so = org(sec[0]) if sec else None
     ours = [s for s in ([prim] if prim else []) + [x for x in spans if x is not prim] if s.get('file_name', '').endswith(os.path.basename(unit.out_path))]
-    fn = enclosing_fn(lines, ours[0]['line_start']) if ours else '?'
+    fn = enclosing_fn(lines, ours[0]['line_start'], unit.text) if ours else '?'
     if prim is not None and ours and not prim.get('file_name', '').endswith(os.path.basename(unit.out_path)):
         prim = ours[0]; po = org(prim)
     def text_of(s):
